@@ -88,6 +88,28 @@ def families(tier, seed):
         tree = op["eqs"][0][2]
         vals = {k: (v[1] if v[0] == "const" else round(rng.uniform(-1, 1), 3)) for k, v in op["vars"].items()}
         out.append(dict(tag=f"{tag}/eval", features=dict(feats, path="eval"), kind="expr_eval", tree=tree, values=vals, style=rng.choice([0, 1, 2, 3])))
+    # sequences of expressions in one process (direct evaluation): random batches, and pairs whose non-commutative node has compound
+    # operands of different kinds with the longer operand on opposite sides
+    singles = [c for c in out if c["kind"] == "expr_eval"]
+    for b in range(3 if tier == "quick" else 12):
+        chunk = singles[b::(3 if tier == "quick" else 12)][:15]
+        out.append(dict(tag=f"eval-sequence-{b}", features=dict(path="eval", sequence=True), kind="expr_eval_seq",
+                        items=[(c["tree"], c["values"], c["style"]) for c in chunk]))
+    V_ = lambda n: ["var", n]
+    mul = lambda *xs: xs[0] if len(xs) == 1 else ["*", mul(*xs[:-1]), xs[-1]]
+    add = lambda *xs: xs[0] if len(xs) == 1 else ["+", add(*xs[:-1]), xs[-1]]
+    a_, b_, c_, v_ = V_("a"), V_("b"), V_("c"), V_("v")
+    pos = dict(a=1.3, b=0.7, c=1.9, v=0.6)
+    pairs = [
+        ("pow-mul-add", [["^", mul(a_, b_, c_, v_), add(a_, b_)], ["^", mul(a_, v_), add(a_, b_, c_, v_)]]),
+        ("pow-add-mul", [["^", add(a_, b_, c_, v_), mul(a_, v_)], ["^", add(a_, b_), mul(a_, b_, c_, v_)]]),
+        ("pow-call-add", [["^", ["call", "exp", mul(a_, b_, c_)], add(a_, v_)], ["^", ["call", "exp", a_], add(a_, b_, c_, v_)]]),
+        ("pow-mul-add-swapped-roles", [["^", add(a_, b_), mul(a_, b_, c_, v_)], ["^", mul(a_, v_), add(a_, b_, c_, v_)], ["^", mul(a_, b_, c_, v_), add(a_, b_)]]),
+    ]
+    for name, trees in pairs:
+        for st in (0, 1):
+            out.append(dict(tag=f"eval-pair-{name}/s{st}", features=dict(path="eval", sequence=True), kind="expr_eval_seq",
+                            items=[(t, pos, st) for t in trees]))
     for tag, feats, model in gen.c05_witnesses():
         out.append(dict(tag=tag, features=dict(feats, path="code"), kind="field", model=model, vec=False, seed=seed, style=0))
     # operator inputs rewritten textually (summed multi-source inputs), incl. as the last token of the equation
@@ -100,18 +122,33 @@ def families(tier, seed):
 
 
 def main():
-    chk = Check("C05", "exploration")
+    chk = Check("C05", "other")
+    # deductive core: names that sympy would resolve to a constant / singleton / function class (pi, E, I, beta, exp, ...) and
+    # names with the parts of generated variables are refused by check_vname, so they can never silently evaluate to something else
+    from checks import c20 as _c20
+    cache = {}
+
+    def vn():
+        if "r" not in cache:
+            cache["r"] = [dict(f, site="C05/check_vname") for f in _c20.vname_native(chk)]
+        return cache["r"]
+    chk.run_contracts("contracts.c20", names=["check_vname"], fallback={"*": vn})
+    for f in vn():
+        chk.report_failure(f)
     driver.run_family(
         chk, "expression-trees-both-paths", families(chk.tier, chk.seed), dispatch, site="C05/expressions",
         rule="seeded random expression trees (depth <= 4 quick / 6 thorough) over + - * / ** and ^, unary minus, nested calls of sin "
              "cos tanh exp sigmoid absv arctan sinh cosh maxi mini, pi, literals, over identifier sets whose names are prefixes / "
              "suffixes of one another or look generated (r/rr, r_in/r_in0, x_v1, weight, m_in2, tau/taux); each tree rendered in "
              "styles {minimal parentheses, x' and ^, no spaces, fully parenthesised}; (1) as the one-equation operator x' = <expr> "
-             "through get_run_func at 3 states x 2 parameter draws, (2) through ExpressionParser + eval_node; value == direct "
-             "evaluation of the tree with NumPy float64; distinct = (tree, style, path)",
+             "through get_run_func at 3 states x 2 parameter draws, (2) through ExpressionParser + eval_node, singly and as sequences of expressions "
+             "in one process (random batches; pairs of general powers whose operands are compound and of different kinds with the longer "
+             "one on opposite sides); value == direct evaluation of the tree with NumPy float64; distinct = (tree, style, path)",
         sample_of=lambda c: {k: v for k, v in c.items() if k not in ("features",)})
     rc = chk.finish(
-        explanation="Bounded: both evaluation paths against a tree evaluator that never sees the equation string.",
+        explanation="Deductive core: check_vname raises exactly on the reserved names (sympy constants / singletons / function classes, "
+                    "PyRates-internal slots) and on names containing a reserved part, for every string. Bounded: both evaluation paths "
+                    "against a tree evaluator that never sees the equation string.",
         assumptions=["rtc.mdl.ev / to_str (harness; to_str is self-tested against Python's own evaluation)",
                      "vector/matrix expressions (vsum, mean, index, index_range, index_axis, index_2d) come from a fixed table, not from the random generator, and run through parse_equations/to_func at the compute graph's default float32 precision (tolerance 2e-5)"])
     sys.exit(rc)
